@@ -7,20 +7,20 @@ Import ListNotations.
 Local Open Scope R_scope.
 
 
-(* st2tost2::dsquare(s(x), C) is the Jacobian of x |-> square(s(x)), s(x) = s0 + C.x *)
-Theorem C06_dsquare_chain : dsquare_chain_stmt1 /\ dsquare_chain_stmt2 /\ dsquare_chain_stmt3.
-Proof. exact (conj dsquare_chain_ok1 (conj dsquare_chain_ok2 dsquare_chain_ok3)). Qed.
-Print Assumptions C06_dsquare_chain.
+(* st2tost2::dsquare(s(x), C) is the Jacobian of x |-> square(s(x)), s(x) = s0 + C.x -- 1D and 2D (3D: Properties_C06t3.v, thorough tier) *)
+Theorem C06_dsquare_chain_1D_2D : dsquare_chain_stmt1 /\ dsquare_chain_stmt2.
+Proof. exact (conj dsquare_chain_ok1 dsquare_chain_ok2). Qed.
+Print Assumptions C06_dsquare_chain_1D_2D.
 
-(* t2tot2::tpld(W, C) is the Jacobian of x |-> V(x)*W, V(x) = V0 + C.x *)
-Theorem C06_tpld_chain : tpld_chain_stmt1 /\ tpld_chain_stmt2 /\ tpld_chain_stmt3.
-Proof. exact (conj tpld_chain_ok1 (conj tpld_chain_ok2 tpld_chain_ok3)). Qed.
-Print Assumptions C06_tpld_chain.
+(* t2tot2::tpld(W, C) is the Jacobian of x |-> V(x)*W, V(x) = V0 + C.x -- 1D and 2D (3D: Properties_C06t3.v, thorough tier) *)
+Theorem C06_tpld_chain_1D_2D : tpld_chain_stmt1 /\ tpld_chain_stmt2.
+Proof. exact (conj tpld_chain_ok1 tpld_chain_ok2). Qed.
+Print Assumptions C06_tpld_chain_1D_2D.
 
-(* t2tot2::tprd(W, C) is the Jacobian of x |-> W*V(x), V(x) = V0 + C.x *)
-Theorem C06_tprd_chain : tprd_chain_stmt1 /\ tprd_chain_stmt2 /\ tprd_chain_stmt3.
-Proof. exact (conj tprd_chain_ok1 (conj tprd_chain_ok2 tprd_chain_ok3)). Qed.
-Print Assumptions C06_tprd_chain.
+(* t2tot2::tprd(W, C) is the Jacobian of x |-> W*V(x), V(x) = V0 + C.x -- 1D and 2D (3D: Properties_C06t2.v, thorough tier) *)
+Theorem C06_tprd_chain_1D_2D : tprd_chain_stmt1 /\ tprd_chain_stmt2.
+Proof. exact (conj tprd_chain_ok1 tprd_chain_ok2). Qed.
+Print Assumptions C06_tprd_chain_1D_2D.
 
 (* st2tot2::tprd(w, C) is the Jacobian of x |-> w*v(x), v(x) = v0 + C.x (symmetric tensors) *)
 Theorem C06_st2tot2_tprd_chain : st2tot2_tprd_chain_stmt1 /\ st2tot2_tprd_chain_stmt2 /\ st2tot2_tprd_chain_stmt3.
